@@ -13,12 +13,16 @@ from vf import common as C  # noqa: E402
 
 MODULES = {
     "C01": "vf.c01",
+    "C02": "vf.c02",
     "C03": "vf.c03",
     "C04": "vf.c04",
+    "C05": "vf.c05",
+    "C06": "vf.c06",
     "C07": "vf.c07",
     "C08": "vf.c08",
     "C09": "vf.c09",
     "C10": "vf.c10",
+    "C11": "vf.c11",
     "C12": "vf.c12",
 }
 
